@@ -50,6 +50,12 @@ const (
 	againMsg  = "Already muted"
 )
 
+// statTok is the ID a status line is recognised by. It holds characters that
+// cannot occur in base64, so it cannot turn up by chance in the pinned-key
+// fingerprint the program prints in its one-liners (a three-letter token did,
+// once in a few thousand cases, and was counted as a second status line).
+func statTok(n int) string { return fmt.Sprintf("st~%d~q", n) }
+
 type sent struct {
 	tok  string
 	when time.Time
@@ -106,7 +112,7 @@ func runC19(t testing.TB, c C19Case) (key, what string, classes []string) {
 	}
 	status := func() error {
 		nstat++
-		tok := fmt.Sprintf("s%dq", nstat)
+		tok := statTok(nstat)
 		log = append(log, sent{tok, time.Now(), "status"})
 		_, err := Request(addr, "PUT /o/"+tok+" HTTP/1.1\r\nHost: verif\r\nContent-Length: 0\r\nConnection: close\r\n\r\n")
 		return err
@@ -166,7 +172,7 @@ func runC19(t testing.TB, c C19Case) (key, what string, classes []string) {
 				// always written, so one must show up if anything still works
 				st := time.Now()
 				status()
-				if !p.WaitOutput(15*time.Second, fmt.Sprintf("s%dq", nstat)) && !p.WaitCount(0, muteMsg, nMuteBefore+1) {
+				if !p.WaitOutput(15*time.Second, statTok(nstat)) && !p.WaitCount(0, muteMsg, nMuteBefore+1) {
 					return "terminal-stuck-after-ctrl-o", fmt.Sprintf("%s: Ctrl+O pressed %d ms into a flood of displayed shell output: no muting announcement within 10 s, and a status line triggered afterwards did not appear within %.0f s either", desc, cy.PressInFlood, time.Since(st).Seconds()), classes
 				}
 			}
